@@ -5,9 +5,6 @@ package command
 // Contracts for the deductive verifier in /verif (govc). Comment-only file:
 // with the build tag off it is not part of any build, with it on it adds no code.
 
-//@ pure func hasPrefix(s string, p string) bool =
-//@     len(p) <= len(s) && forall i int :: 0 <= i && i < len(p) ==> s[i] == p[i]
-//@
 //@ pure func validCmd(s string) bool =
 //@     len(s) >= 1 && s[0] == '/' && (len(s) == 1 || s[len(s)-1] != '/') && toLower(s) == s
 //@
